@@ -8,6 +8,7 @@
 import PandoraModel.Model.Refinement
 import PandoraModel.Properties.Flags
 import PandoraModel.Generated.Constants
+import PandoraModel.Generated.RefineCC
 import Mathlib.Tactic.Linarith
 import Mathlib.Tactic.Ring
 import Mathlib.Tactic.FieldSimp
@@ -1318,5 +1319,53 @@ theorem offgrid_past_end_counterexample :
     ∧ failing (exP .vfit false) (exPix [.num 9, .num 9, .num 5, .num 1, .num 1] (7/8) 0)
         ⟨.num (-1), .num (7/8 + (1/2) / 2), 0⟩ 0 = ["inside_interval"] := by
   decide +kernel
+
+
+/-- the repaired model on the inputs of the four counterexamples: the flat triple is left in place
+    without a flag, bit 3 stays bit 3, the off-grid pixel at sample 0 is stopped; the off-grid pixel next
+    to `dmax` still leaves the interval (C06-F5 is not repaired by the proposed fixes) -/
+def exPfixed (m : Method) : Params :=
+  { variant := { fixFlat := true, fixOr := true, fixEnds := true }, method := m, isMax := false, subpix := 2, dmin := -1, dmax := 1 }
+
+theorem repaired_on_counterexamples :
+    refinePixel (exPfixed .quadratic) (exPix [.num 3, .num 1, .num 1, .num 1, .num 3] 0 0) = .ok ⟨.num 1, .num 0, 0⟩
+    ∧ refinePixel (exPfixed .vfit) (exPix [.num 1, .num 4, .num 5, .num 2, .num 7] (-1) 8) = .ok ⟨.num 1, .num (-1), 8⟩
+    ∧ refinePixel (exPfixed .vfit) (exPix [.num 1, .num 8, .num 3, .num 5, .num 4] (-7/8) 0) = .ok ⟨.num 1, .num (-7/8), 8⟩
+    ∧ failing (exPfixed .vfit) (exPix [.num 9, .num 9, .num 5, .num 1, .num 1] (7/8) 0)
+        ⟨.num (-1), .num (7/8 + (1/2) / 2), 0⟩ 0 = ["inside_interval"] := by
+  decide +kernel
+
+
+/-! ## The source as it is now (`Generated/RefineCC.lean`, regenerated from the source text on every run) -/
+
+/-- the literals of vfit.py / quadratic.py are the ones the model uses: the `1e-15` guard, the clamp to [-1, 1] -/
+theorem source_literals :
+    tiny = mkRat (Generated.RefineCC.vfitGuardNum : Int) Generated.RefineCC.vfitGuardDen
+    ∧ (∀ x : Rat, clamp1 x =
+        if x < mkRat Generated.RefineCC.clampLo Generated.RefineCC.clampLoDen
+        then mkRat Generated.RefineCC.clampLo Generated.RefineCC.clampLoDen
+        else if mkRat Generated.RefineCC.clampHi Generated.RefineCC.clampHiDen < x
+        then mkRat Generated.RefineCC.clampHi Generated.RefineCC.clampHiDen else x) := by
+  constructor
+  · decide +kernel
+  · intro x
+    have e1 : mkRat Generated.RefineCC.clampLo Generated.RefineCC.clampLoDen = -1 := by decide +kernel
+    have e2 : mkRat Generated.RefineCC.clampHi Generated.RefineCC.clampHiDen = 1 := by decide +kernel
+    rw [e1, e2]; rfl
+
+/-- which repairs the source carries, read from its text (`+=` or `|=`, the form of the interval-end test,
+    the `alpha == 0` guard) -/
+def sourceVariant : Variant :=
+  { fixFlat := Generated.RefineCC.quadraticFlatGuard, fixOr := Generated.RefineCC.flagUpdateIsOr,
+    fixEnds := Generated.RefineCC.endTestOnIndex }
+
+/-- **C06 for the source as it is now**: `refinePixel_spec` at the variant regenerated from the source. -/
+theorem source_pixel_spec (P : Params) (x : PixIn) (tol : ℚ) (_hP : P.variant = sourceVariant)
+    (hp : pixHyp P x = true) (htol : 0 ≤ tol)
+    (hnt : P.method = .vfit → tiny ≤ tol ∨ notTinyCosts x.costs = true) :
+    (∃ o, refinePixel P x = .ok o ∧ specOK P x o tol = true) ∨
+    (P.method = .quadratic ∧ P.variant.fixFlat = false ∧ refinePixel P x = .err .zeroDivision
+      ∧ ∃ d c, classify P x = .refine d c c c) :=
+  refinePixel_spec P x tol hp htol hnt
 
 end Pandora.C06
